@@ -88,6 +88,67 @@ def mutate(data, muts, other):
     return bytes(b[:4096])
 
 
+NEST_DEPTHS = [1, 2, 3, 8, 14, 18, 24, 40, 100, 300]
+
+
+def mutate_tlv(data, muts, other):
+    """structure-aware mutations of a BER/DER encoding through the independent TLV layer: the first drawn
+    (op, pos, val) picks a rewrite of the TLV tree (deeply nested constructed segments around a primitive node,
+    indefinite lengths everywhere, children repeated, the whole message wrapped in nested constructed nodes);
+    the remaining draws are applied as byte-level mutations"""
+    from ..model import tlv
+    try:
+        root, end = tlv.parse(data)
+        if end != len(data):
+            raise tlv.TlvError('trailing')
+    except Exception:
+        return mutate(data, muts, other)
+    nodes = []
+
+    def walk(n):
+        nodes.append(n)
+        for c in (n.children or []):
+            walk(c)
+    walk(root)
+    op, pos, val = muts[0]
+    op = op % 4
+    prims = [n for n in nodes if n.children is None]
+    cons = [n for n in nodes if n.children is not None]
+    if op == 0 and prims:
+        n = prims[pos % len(prims)]
+        depth = NEST_DEPTHS[val % len(NEST_DEPTHS)]
+        seg_tag = ('UNIVERSAL', 3 if (n.cls, n.num) == ('UNIVERSAL', 3) else 4) if val & 16 else (n.cls, n.num)
+        inner = tlv.Node(seg_tag[0], seg_tag[1], False, content=n.content)
+        for i in range(depth - 1):
+            w = tlv.Node(seg_tag[0], seg_tag[1], True, children=[inner])
+            w.indefinite = bool(val & 32) and i % 2 == 0
+            inner = w
+        n.constructed, n.content, n.children = True, None, [inner]
+        n.indefinite = bool(val & 64)
+    elif op == 1 and cons:
+        for n in cons:
+            n.indefinite = True
+    elif op == 2 and cons:
+        n = cons[pos % len(cons)]
+        k = [2, 3, 16, 100][val % 4]
+        if n.children:
+            n.children = (n.children * k)[:400]
+    else:
+        depth = NEST_DEPTHS[val % len(NEST_DEPTHS)]
+        for i in range(depth):
+            w = tlv.Node(root.cls, root.num, True, children=[root]) if val & 16 else \
+                tlv.Node('UNIVERSAL', 16, True, children=[root])
+            w.indefinite = bool(val & 32)
+            root = w
+    try:
+        out = tlv.serialize(root)
+    except (tlv.TlvError, RecursionError):
+        return mutate(data, muts, other)
+    if len(muts) > 1:
+        out = mutate(out, muts[1:], other)
+    return bytes(out[:4096])
+
+
 def mutate_text(data, muts, other):
     """token-level mutations for JER / XER documents (no DTD / entity tokens introduced)"""
     try:
@@ -128,7 +189,9 @@ def cases(draw, prof, vcfg):
 class C08(Check):
     id = 'C08'
     rule = ('cases = generated modules x types x valid encodings x 4-10 drawn mutations each (bit flips, truncation, '
-            'insertion, deletion, splicing, length-field tampering, repetition, random bytes <= 4 KiB; token-level '
+            'insertion, deletion, splicing, length-field tampering, repetition, random bytes <= 4 KiB; for BER/DER one '
+            'mutation in three rewrites the TLV tree: constructed segments nested up to 300 deep, indefinite lengths, '
+            'repeated children, nested wrappers; token-level '
             'mutations for JER/XER) x 7 decoding codecs; oracle: decode returns or raises within a deterministic work '
             'budget (call-event count <= 50 x the largest events-per-(len+64)(|T|+1) seen on valid decodes, floor 20000), '
             'tracemalloc peak within 8 MiB + proportional budget on a sample, and the SAME compiled object still decodes a '
@@ -189,7 +252,11 @@ class C08(Check):
                                  'case': common.mk_case(spec, modname, name, vals[0], codec=codec)})
                 for k, ms in enumerate(muts):
                     base = valid[k % len(valid)][0]
-                    data = (mutate_text if textual else mutate)(base, ms, other)
+                    if codec in ('ber', 'der') and k % 3 == 2:
+                        data = mutate_tlv(base, ms, other)
+                        rec.cls('tlv-structural-mutations')
+                    else:
+                        data = (mutate_text if textual else mutate)(base, ms, other)
                     budget = int(max(FLOOR_EVENTS, FACTOR * max(rate, 1.0) * (len(data) + 64) * (tsize + 1)))
                     rec.ev()
                     sample_mem = (rec.evaluations % 8 == 0)
